@@ -130,7 +130,7 @@ func (t *CallableType) CallableWith(args []px.Value, block px.Lambda) bool {
 		if !isAssignable(block.PType(), cb) {
 			return false
 		}
-	} else if t.blockType != nil && !isAssignable(t.blockType, anyTypeDefault) {
+	} else if t.blockType != nil && !isAssignable(t.blockType, undefTypeDefault) {
 		// Required block but non provided
 		return false
 	}
